@@ -2,6 +2,7 @@ import BigtoolsModel.Stats
 import BigtoolsModel.Stats2
 import BigtoolsModel.ChunkLines
 import BigtoolsModel.PyBase
+import BigtoolsModel.AtomsGen
 /-! # C17 — per-region bigWig statistics and values are exact and thread-count independent
 
 Property theorems (statements copied from the lemma modules, proofs by those lemmas). -/
@@ -56,3 +57,12 @@ theorem C17_values_over_bed_per_base (start : Int) (L : Nat) (items : List Item)
   values_spec start L items hclip
 
 end PYB
+
+namespace CH
+
+/-- **The code's own chunking arithmetic** (the BED file of `bigwigaverageoverbed -t N` is cut by `split_file_into_chunks_by_size`,
+    regenerated from the source) is the model's `split`, the function `C17_rows_in_input_order_for_any_thread_count` rests on. -/
+theorem C17_source_chunker_is_the_models (ls : List Nat) (chunks : Nat) : splitGen ls chunks = split ls chunks :=
+  gen_chunker ls chunks
+
+end CH
